@@ -29,6 +29,7 @@ def run(prog, run):
     r_multi(prog, run)
     r_reply(prog, run)
     r_form_as_received(prog, run)
+    r_same_manager(prog, run)
 
 
 # ---------------------------------------------------------------------------------------------------------------
@@ -1127,3 +1128,31 @@ def r_form_as_received(prog, run):
         run.violation(rid, 'QXmppDataForm::parse#%s' % key.split('#')[-1], f.loc(i), 'the verification string is computed over a form that is not the received one: ' + msg)
     else:
         run.ok(rid, 'src/base/QXmppDataForm.cpp', 'field values are stored as read (C01.R10 / R13 clauses hold for the data form parser)')
+
+
+# --------------------------------------------------------------------------- R8: the manager that is hashed is the manager that answers
+def r_same_manager(prog, run):
+    rid = run.rule('C20.R8', 'the discovery manager whose capabilities are hashed into the presence is the one that answers disco#info: findExtension<T>() returns the first match in '
+                             'list order, the order in which received stanzas are offered to the extensions (with a second discovery manager registered, a last-match look-up '
+                             'would hash one manager and let the other answer)', floor=1)
+    fes = [f for f in prog.fns.values() if f.qname == 'QXmppClient::findExtension' and f.entry is not None and not f.raw.get('dependent') and 'QXmppDiscoveryManager' in (f.targs or '')]
+    if not fes:
+        fes = [f for f in prog.fns.values() if f.qname == 'QXmppClient::findExtension' and f.entry is not None and not f.raw.get('dependent')][:1]
+    if not fes:
+        raise AnalysisBroken('C20.R8: no instantiation of QXmppClient::findExtension found')
+    f = fes[0]
+    run.instance(rid)
+    backwards = [i for i, n in f.calls() if (f.sym(n) or {}).get('name') in ('rbegin', 'crbegin', 'rend', 'crend', 'last', 'constLast', 'back', 'takeLast')
+                 or (f.cname(n) or '') in ('std::reverse', 'std::make_reverse_iterator', 'std::ranges::reverse', 'std::views::reverse', 'std::find_end')]
+    backwards += [i for i, n in enumerate(f.nodes) if n['k'] == 'un' and n.get('op') in ('pre--', 'post--')]
+    forward = any((b.get('term') or {}).get('k') == 'rangefor' for b in f.blocks.values()) or \
+        any((f.sym(n) or {}).get('name') in ('begin', 'cbegin', 'constBegin') or (f.cname(n) or '') in ('std::find_if', 'std::ranges::find_if') for _, n in f.calls()) or \
+        any(n['k'] == 'un' and n.get('op') in ('pre++', 'post++') for n in f.nodes)
+    if backwards:
+        run.violation(rid, 'findExtension#last-match', f.loc(backwards[0]),
+                      'QXmppClient::findExtension%s walks the extension list from the back (%s): the presence hash is computed from the last discovery manager while stanzas are '
+                      'offered front to back and the first one answers disco#info' % ((f.targs or '')[:40], f.fmt(backwards[0], inline=False)[:40]))
+    elif forward:
+        run.ok(rid, f.loc(), 'findExtension returns the first match in list order')
+    else:
+        raise AnalysisBroken('C20.R8: the iteration of findExtension has a form the checker does not know')
